@@ -318,8 +318,10 @@ func blockOnListChangeWorker(
 		ctx.l.Tracef("waiting for %s to get a list item until %s", keyNameStr(), end.Format(time.StampMilli))
 	}
 
+	simYield("block.before-register")
 	ws := blockFn()
 	defer ctx.dsc.ds.leaveListBlock(ws)
+	simYield("block.after-register")
 
 	// with notification registered, try operation again immediately
 	output = op()
@@ -335,10 +337,12 @@ func blockOnListChangeWorker(
 			waitTimer := time.NewTimer(timeout)
 			defer waitTimer.Stop()
 
+			simYield("block.before-capture")
 			unblockCh := ctx.cs.capture()
 			defer ctx.cs.releaseCapture()
 
 			defer simYield("block.woke")
+			simYield("block.before-wait")
 			select {
 			case reason := <-unblockCh:
 				// abort this command - connectivity lost, or explicitly unblocked via another client
@@ -366,6 +370,8 @@ func blockOnListChangeWorker(
 			return
 		}
 		// a different client obtained the list element before this client could, so try again
+		simProbe("block.retry-failed")
+		simYield("block.retry-failed")
 	}
 }
 
